@@ -157,7 +157,8 @@ def decCap (cfg : Cfg) (exempt : Bool) : Int :=
 
 /-- `readHTTPBody`: outcome, raw bytes pulled from the request body, decoded bytes pulled. -/
 def readBody (cfg : Cfg) (exempt : Bool) (rawLen : Nat) (hdr : Bytes) (facts : Facts) : ROut × Nat × Nat :=
-  let (limit, applied) := rawLimit cfg exempt
+  let limit := (rawLimit cfg exempt).1
+  let applied := (rawLimit cfg exempt).2
   let pulledRaw := if limit > 0 then min rawLen (limit.toNat + 1) else rawLen
   if limit > 0 ∧ (pulledRaw : Int) > limit then
     (if applied then .tooLarge limit else .valueErr, pulledRaw, 0)
@@ -167,7 +168,8 @@ def readBody (cfg : Cfg) (exempt : Bool) (rawLen : Nat) (hdr : Bytes) (facts : F
     | .unknown => (.unsupported, pulledRaw, 0)
     | .codec c =>
       let cap := decCap cfg exempt
-      let (d, pulled) := decompressBounded (some c) facts cap
+      let d := (decompressBounded (some c) facts cap).1
+      let pulled := (decompressBounded (some c) facts cap).2
       let out := match d with
         | .ok n => ROut.body n
         | .tooLarge l =>
